@@ -21,9 +21,9 @@ from c03 import CharTable
 QTOK = {"n": None, "1": "'", "2": '"', "s": "'''", "d": '"""'}
 OPTS = ["None", "True", "False"]
 
-# finding ids (see SPEC["findings_doc"])
+# finding ids (F9: DESIGN.md section 2; the second one was found while building this check)
 F_PLUS_CASE = "F9"
-F_SHADOW = "F17"
+F_SHADOW = "C11-shadowed-star"
 
 
 # ----------------------------------------------------------------------------- plain helpers
@@ -177,7 +177,7 @@ def finding_of(mw, sw, opt):
             if p not in keys:
                 return F_PLUS_CASE if (p.lower() in keys and p != p.lower()) else None
         return None
-    # F17: a starred unknown name is silently dropped when the same name was given un-starred earlier
+    # C11-shadowed-star: a starred unknown name is silently dropped when the same name was given un-starred earlier
     seen_unsel = set()
     single = len(sw) == 1
     for w in sw:
@@ -423,11 +423,11 @@ class FetchParsed(Stream):
 
     # corpus: literal witnesses of the recorded defects + spellings of the existing tests
     W_F9 = [[["A", "n"], ["b", "n"], ["C", "n"]], [["A+b", "n"]], True, "None"]
-    W_F17 = [[["a", "n"], ["b", "n"]], [["x", "n"], ["*x", "n"]], False, "None"]
+    W_SHADOW = [[["a", "n"], ["b", "n"]], [["x", "n"], ["*x", "n"]], False, "None"]
 
     def corpus(self):
         return [
-            self.W_F9, self.W_F17,
+            self.W_F9, self.W_SHADOW,
             [[["A", "n"], ["b", "n"], ["C", "n"]], [["a+b", "n"]], True, "None"],
             [[["*a", "n"], ["b", "n"]], [["None", "n"]], False, "False"],
             [[["*a", "n"], ["b", "n"]], [["None", "n"]], False, "True"],
@@ -552,9 +552,9 @@ class FetchParsed(Stream):
             return False
         f = finding_of(mw, sw, opt)
         if f is not None:
-            # F9 / F17 (recorded defects): only the literal corpus witness stays in the domain, and only
+            # F9 / C11-shadowed-star (recorded defects): only the literal corpus witness stays in the domain, and only
             # once the finding is listed in known_findings.json (so that it is reported as KNOWN-FINDING)
-            return f in self.known and case in (self.W_F9, self.W_F17)
+            return f in self.known and case in (self.W_F9, self.W_SHADOW)
         return True
 
     def key(self, case, o):
@@ -697,7 +697,7 @@ class FetchDirect(Stream):
     def in_domain(self, case):
         mw, sw, multi, opt, ign = case
         # the property speaks about parsed definitions: at least one source word, error reporting on,
-        # .optional in {None, True, False}; F9 / F17 inputs are excluded here (witnesses live in fetch_parsed)
+        # .optional in {None, True, False}; F9 / C11-shadowed-star inputs are excluded here (witnesses live in fetch_parsed)
         return (well_formed_master(mw) and len(sw) >= 1 and not ign and opt != "Auto"
                 and finding_of(mw, sw, opt) is None)
 
@@ -835,7 +835,7 @@ class TypeStr(Stream):
 def match_finding(finding, failure):
     """F9: '+' form in which the first name that is not literally a lower-cased alternative is an
     alternative up to case (so it contains an upper-case character).
-    F17: a starred unknown name preceded by the same name un-starred."""
+    C11-shadowed-star: a starred unknown name preceded by the same name un-starred."""
     case = failure.get("case")
     if not isinstance(case, list) or len(case) != 4:
         return False
